@@ -279,6 +279,25 @@ def consumed {α τ : Type} (s : St α τ) : List (Event α) → List (Res α)
   | [] => []
   | e :: es => (consumedBy s e).toList ++ consumed (step s e) es
 
+/-! ### the plan of a page fetch (`pager.rs:337-365`) -/
+
+/-- A target as `load_balancing::Plan` yields it: `(node, shard)`. -/
+abbrev PlanTarget := Nat × Nat
+
+/-- `PagingExecutor::fetch_one_page` (`pager.rs:337-365`): the plan of a page fetch is the stable coordinator of the
+previous page (if any; `coordinator.shard().unwrap_or(2137)` — an unsharded coordinator has no shard and gets a
+placeholder) followed by the load-balancing plan from which that coordinator is filtered out: a target is dropped iff
+it is on the coordinator's node and (the coordinator is unsharded or the shard is the coordinator's). -/
+def pagerPlan (coord : Option (Nat × Option Nat)) (lbPlan : List PlanTarget) : List PlanTarget :=
+  match coord with
+  | none => lbPlan
+  | some (cn, cs) =>
+    (cn, cs.getD 2137) ::
+      lbPlan.filter (fun t => !(t.1 == cn && (match cs with | none => true | some lastShard => lastShard == t.2)))
+
+/-- The target an attempt really goes to: on an unsharded node the shard is ignored (`connection_for_shard`). -/
+def canonTarget (sharded : Nat → Bool) (t : PlanTarget) : PlanTarget := (t.1, if sharded t.1 then t.2 else 0)
+
 /-- `e` is the client-side timeout taking effect in `s`. -/
 def deadlineBy {α τ : Type} (s : St α τ) : Event α → Bool
   | .deadline => s.returned.isNone && s.deadlineMs.isSome
